@@ -1,5 +1,6 @@
 import RPVerif.Lemmas.States
 import RPVerif.Gen.States
+import RPVerif.Model.Callbacks
 
 /-!
 # C06 — Applications observe the linear task state model
@@ -118,5 +119,25 @@ example :
 
 example : Chain N (.nf 0) [.nf 1, .nf 2, .canceled] := by
   simp [Chain, Step, St.isFinal, St.WF, St.val, St.isFC, N, Gen.taskStateValues]
+
+/-! ## callbacks that use the registry while a notification is delivered -/
+
+open RPVerif.Callbacks
+
+theorem C06_task_cb_snapshot : Gen.taskCbSnapshot = true := by decide
+
+/-- **every callback registered when a notification arrives is called exactly once, in order, and no
+    exception escapes the delivery - whatever the callbacks do to the registry meanwhile** (a one-shot
+    callback taking itself out, a callback installing another one).  Holds because `_task_cb` walks a list
+    made before the first callback runs (`C06_task_cb_snapshot`, read from the source). -/
+theorem C06_registry_use_harmless (reg : List Nat) (act : Nat → Edit) :
+    (deliver Gen.taskCbSnapshot reg act).1 = reg ∧ (deliver Gen.taskCbSnapshot reg act).2.2 = false := by
+  rw [C06_task_cb_snapshot]
+  exact ⟨rfl, rfl⟩
+
+/-- the order matters (test): walking the live registry, a one-shot callback that takes itself out ends
+    the delivery - the callbacks after it never hear of the state -/
+example : deliver false [1, 2, 3] (fun id => if id = 1 then .unregister 1 else .nothing) = ([1], [2, 3], true) := by decide
+example : deliver true [1, 2, 3] (fun id => if id = 1 then .unregister 1 else .nothing) = ([1, 2, 3], [2, 3], false) := by decide
 
 end RPVerif.C06
